@@ -113,6 +113,58 @@ def has_field_pred(p):
     return p.get("op") == "field"
 
 
+def parse_indices(o):
+    """indices printed by `Print M.` (M : list nat); None when the output cannot be read completely (fail closed)"""
+    m = re.search(r"M\s*=\s*(.*?)\s*:\s*list nat", o, re.S)
+    if not m:
+        return None
+    body = m.group(1)
+    idx = [int(x) for x in re.findall(r"(\d+)(?:%nat)?", body)]
+    rest = re.sub(r"\d+(?:%nat)?", "", body)
+    if re.sub(r"[\[\];\s]", "", rest):
+        return None     # something in the list that is not an index
+    return idx
+
+
+def eval_with_canary(ck, files, what):
+    """files: (name, text, n) where the LAST of the n cases is a canary that must be reported as a mismatch.
+    Returns per file the list of real mismatch indices, or None (and an entry in ck.broken) when the evaluation cannot be trusted."""
+    res = []
+    for (name, _, n), (rc, o) in zip(files, ck.coq_eval_many([(f, t) for f, t, _ in files])):
+        idx = parse_indices(o) if rc == 0 else None
+        if idx is None:
+            ck.broken.append("%s: model evaluation failed or unreadable (%s): %s" % (what, name, o[-500:]))
+            res.append(None)
+            continue
+        if any(i >= n for i in idx) or (n - 1) not in idx:
+            ck.broken.append("%s: the canary case of %s was not reported by the model evaluation (indices %s of %d cases) - "
+                             "the comparison is blind" % (what, name, idx[:10], n))
+            res.append(None)
+            continue
+        res.append([i for i in idx if i != n - 1])
+    return res
+
+
+PRE = {}   # outputs of the in-process harnesses (c08op, c08f, c08s), produced by a side thread while the black box runs
+
+
+def side_harnesses(ck, bins):
+    """run the three in-process harnesses one after the other (they do not share anything with the server run)"""
+    quick = ck.tier == "quick"
+    try:
+        if bins.get("op"):
+            PRE["op"] = ck.run([bins["op"], str(40 if quick else 400)], timeout=3000, env={"HOME": ck.work})
+        if bins.get("fault"):
+            wd = os.path.join(ck.work, "fault")
+            os.makedirs(wd, exist_ok=True)
+            PRE["fault"] = ck.run([bins["fault"], wd, str(25 if quick else 120)], timeout=900, env={"HOME": ck.work})
+        if bins.get("store"):
+            wd = os.path.join(ck.work, "store")
+            os.makedirs(wd, exist_ok=True)
+            PRE["store"] = ck.run([bins["store"], wd, str(2 if quick else 10)], timeout=1800, env={"HOME": ck.work})
+    except Exception as e:   # never silent: the stages report a missing output as broken
+        PRE["error"] = repr(e)
+
 _FRAG = None
 
 
@@ -130,15 +182,97 @@ def finding_open(ck, fid):
     return _FRAG.get(fid, {}).get("status") == "open"
 
 
+def store_case_coq(c, rows, corrupt=False):
+    """Coq term of one store-side case: logical contents, statement, the partial rows the real reader emitted"""
+    st = c["stmt"]
+    nser = c["nser"]
+    ser = []
+    for sidx in range(nser):
+        rr = []
+        for r in rows:
+            if r["s"] != sidx:
+                continue
+            f = {x["f"]: x["v"] for x in (r.get("f") or [])}
+            rr.append("(%s, [%s; %s])" % (coq_z(r["t"]), opt_z(f.get(0)), opt_z(f.get(1))))
+        ser.append("([%s; %s], %s)" % (coq_z(sidx + 1), coq_z(sidx % 2 + 1), coq_list(rr)))
+    aggs = coq_list(["(%s, %d%%nat, 1%%Z)" % (OPFN[k["fn"]], k["f"]) for k in st["calls"]])
+    pred = "(PField 0 CGe %s)" % coq_z(st["filt_ge"]) if st.get("has_filt") else "PTrue"
+    group = {"": "[]", "host": "[0%nat]", "zone": "[1%nat]"}[st.get("group", "")]
+    q = "(mkQ (SelAgg %s) %s %s %s %s %s FillNone 0 0 false)" % (
+        aggs, opt_z(st["tmin"] if st.get("has_range") else None), opt_z(st["tmax"] if st.get("has_range") else None),
+        pred, group, coq_z(st.get("interval", 0)))
+    by_key = {}
+    for p in c.get("parts") or []:
+        key = {"": (), "host": (p["host"] + 1,), "zone": (p["zone"] + 1,)}[st.get("group", "")]
+        cells = coq_list(["None" if x.get("null") else "(Some (%s, %s))" % (coq_z(x["v"]), coq_z(x["t"])) for x in p["c"]])
+        by_key.setdefault(key, []).append("(%s, %s)" % (coq_z(p["t"]), cells))
+    if corrupt:
+        by_key[(424242,)] = ["(0, %s)" % coq_list(["(Some (1, 0))"] * len(st["calls"]))]
+    parts = coq_list(["(%s, %s)" % (coq_list([coq_z(k) for k in key]), coq_list(rr)) for key, rr in sorted(by_key.items())])
+    return "(%s, %s, %s)" % (coq_list(ser), q, parts)
+
+
+def store_stage(ck, coq_ok):
+    """store-side operator level (harness cmd/c08s): the real aggregate cursors on every piece cut; the emitted partial rows are
+    folded by the Coq L2 combination of partial aggregates and compared with the reference semantics"""
+    if "store" not in PRE:
+        return {}
+    rc, out = PRE["store"]
+    cases = [json.loads(l)["storecase"] for l in out.splitlines() if l.startswith('{"storecase"')]
+    if rc != 0 or not cases:
+        ck.broken.append("harness c08s failed rc=%d cases=%d: %s" % (rc, len(cases), out[-600:]))
+        return {}
+    rows_of = {}
+    for c in cases:
+        if c.get("rows"):
+            rows_of[c["ds"]] = c["rows"]
+    bad = sorted([c for c in cases if c.get("fail")], key=lambda c: (len(rows_of.get(c["ds"], [])), c["c2"], c["c1"], -c["chunk"]))
+    for c in bad[:1]:
+        d = dict(c)
+        d["rows"] = rows_of.get(c["ds"])
+        ck.violation({"kind": "direct-oracle-store", "what": "real store-side reader: statement %r, rows written as file 1 = [0:%d], file 2 = [%d:%d], "
+                      "memtable = the rest, batch size %d: the emitted partial aggregates do not fold to the documented aggregates (%s; "
+                      "%d failing cases of %d)" % (c["stmt"]["sql"], c["c1"], c["c1"], c["c2"], c["chunk"], c.get("err") or c["fail"], len(bad), len(cases)),
+                      "storecase": d}, tag="store")
+    cov = {"cases": len(cases), "failing": len(bad), "layouts": len({(c["ds"], c["c1"], c["c2"]) for c in cases}),
+           "rule": "case = (data set, cut of its write sequence into file 1 / file 2 / memtable at every pair of positions, statement, batch size 1024/1/2/3)"}
+    if not coq_ok:
+        return cov
+    seen, items = set(), []
+    good = [c for c in cases if not c.get("fail")]
+    for c in good:
+        key = json.dumps([c["ds"], c["stmt"], c["parts"]], sort_keys=True)
+        if key in seen:
+            continue
+        seen.add(key)
+        items.append(store_case_coq(c, rows_of[c["ds"]]))
+    files = []
+    if good:
+        canary = store_case_coq(good[0], rows_of[good[0]["ds"]], corrupt=True)
+        for i in range(0, len(items), 150):
+            part = items[i:i + 150] + [canary]
+            txt = ("From Coq Require Import ZArith List Bool. From OG Require Import C08.Model C08.Pipe C08.Corr.\n"
+                   "Import ListNotations. Open Scope Z_scope.\n"
+                   "Definition cases : list store_case := [\n%s\n].\n"
+                   "Definition M := Eval vm_compute in store_mismatches cases.\nPrint M.\n") % ";\n".join(part)
+            files.append(("store_%d" % i, txt, len(part)))
+    mism = 0
+    for r in eval_with_canary(ck, files, "store-side operator level"):
+        if r is not None:
+            mism += len(r)
+    if mism:
+        ck.broken.append("correspondence C08 (store side): the Coq fold of the reader's partial rows differs from the reference semantics on %d "
+                         "cases that the Go twin accepted" % mism)
+    cov["distinct_recomputed_by_coq"] = len(items)
+    cov["coq_mismatches"] = mism
+    return cov
+
+
 def fault_stage(ck):
     """in-process fault stage (harness cmd/c08f): under ONE injected storage read error a query must fail or be correct"""
-    fbin = ck.go_build("./cmd/c08f", "c08f")
-    if not fbin:
+    if "fault" not in PRE:
         return {}
-    n = 25 if ck.tier == "quick" else 120
-    wd = os.path.join(ck.work, "fault")
-    os.makedirs(wd, exist_ok=True)
-    rc, out = ck.run([fbin, wd, str(n)], timeout=900, env={"HOME": ck.work})
+    rc, out = PRE["fault"]
     cases = [json.loads(l)["faultcase"] for l in out.splitlines() if l.startswith('{"faultcase"')]
     done = [json.loads(l)["faultdone"] for l in out.splitlines() if l.startswith('{"faultdone"')]
     if rc != 0 or not cases or not done:
@@ -293,13 +427,13 @@ def aggcase_coq(c):
     return "(%s, %s, %s)" % (aggs, chunks, want)
 
 
-def limitcase_coq(c):
+def limitcase_coq(c, canary=False):
     st = c["stream"]
     ids = [coq_z(i) for i in range(len(st["rows"]))]
     chunks = coq_list([coq_list(ch) for ch in cut_chunks(ids, c["cut"])])
     lo = min(st["offset"], len(ids))
     hi = min(st["offset"] + st["limit"], len(ids))
-    return "(%d%%nat, %d%%nat, %s, %s)" % (st["offset"], st["limit"], chunks, coq_list(ids[lo:hi]))
+    return "(%d%%nat, %d%%nat, %s, %s)" % (st["offset"], st["limit"], chunks, coq_list(ids[lo:hi] + (["999"] if canary else [])))
 
 
 def mrow_arow(r, key):
@@ -351,13 +485,14 @@ def op_more(ck, out, coq_ok):
         return cov
     files = []
 
-    def shard(name, typ, fn, items):
+    def shard(name, typ, fn, items, canary):
         for i in range(0, len(items), 300):
+            part = items[i:i + 300] + [canary]
             txt = ("From Coq Require Import ZArith List Bool. From OG Require Import C08.Model C08.Pipe C08.Corr.\n"
                    "Import ListNotations. Open Scope Z_scope.\n"
                    "Definition cases : list %s := [\n%s\n].\n"
-                   "Definition M := Eval vm_compute in %s cases.\nPrint M.\n") % (typ, ";\n".join(items[i:i + 300]), fn)
-            files.append(("%s_%d" % (name, i), name, txt))
+                   "Definition M := Eval vm_compute in %s cases.\nPrint M.\n") % (typ, ";\n".join(part), fn)
+            files.append(("%s_%d" % (name, i), txt, len(part), name))
 
     def uniq(cases, keyf):
         seen, res = set(), []
@@ -368,20 +503,32 @@ def op_more(ck, out, coq_ok):
                 res.append(c)
         return res
 
+    def corrupt(c, field, extra):
+        d = dict(c)
+        d[field] = list(c[field] or []) + [extra]
+        return d
+
     ua = uniq(groups["aggcase"], lambda c: c["cut"])
     ul = uniq(groups["limitcase"], lambda c: c["cut"])
     okm = [c for c in groups["mergecase"] if not c.get("fail")]
-    shard("aggop", "aggop_case", "aggop_mismatches", [aggcase_coq(c) for c in ua])
-    shard("limitop", "limitop_case", "limitop_mismatches", [limitcase_coq(c) for c in ul])
-    shard("sortmerge", "sortmerge_case", "sortmerge_mismatches", [mergecase_coq(c) for c in okm if c["stream"]["kind"] == "sortmerge"])
-    shard("kmerge", "kmerge_case", "kmerge_mismatches", [mergecase_coq(c) for c in okm if c["stream"]["kind"] == "merge"])
+    sm = [c for c in okm if c["stream"]["kind"] == "sortmerge"]
+    km = [c for c in okm if c["stream"]["kind"] == "merge"]
+    # canaries: a copy of the first case with one more row in the expected / observed output - must be reported
+    if ua:
+        shard("aggop", "aggop_case", "aggop_mismatches", [aggcase_coq(c) for c in ua],
+              aggcase_coq(corrupt(ua[0], "want", {"g": 9, "w": 9, "t": 0, "c": [None] * len(ua[0]["stream"]["calls"])})))
+    if ul:
+        shard("limitop", "limitop_case", "limitop_mismatches", [limitcase_coq(c) for c in ul], limitcase_coq(ul[0], canary=True))
+    if sm:
+        shard("sortmerge", "sortmerge_case", "sortmerge_mismatches", [mergecase_coq(c) for c in sm],
+              mergecase_coq(corrupt(sm[0], "got", {"g": 7, "t": 77, "c": [None] * len(sm[0]["stream"]["cols"])})))
+    if km:
+        shard("kmerge", "kmerge_case", "kmerge_mismatches", [mergecase_coq(c) for c in km],
+              mergecase_coq(corrupt(km[0], "got", {"g": 7, "t": 77, "c": [None] * len(km[0]["stream"]["cols"])})))
     mism = {}
-    for (fname, name, _), (rc2, o) in zip(files, ck.coq_eval_many([(f, t) for f, _, t in files])):
-        m = re.search(r"M\s*=\s*(.*?)\s*:\s*list", o, re.S)
-        if rc2 != 0 or not m:
-            ck.broken.append("operator-level model evaluation failed (%s): %s" % (fname, o[-600:]))
-            continue
-        mism[name] = mism.get(name, 0) + len(re.findall(r"\d+", m.group(1)))
+    for (fname, _, _, name), r in zip(files, eval_with_canary(ck, [(f, t, n) for f, t, n, _ in files], "operator level")):
+        if r is not None:
+            mism[name] = mism.get(name, 0) + len(r)
     for name, n in sorted(mism.items()):
         if n:
             ck.broken.append("correspondence C08 (operator level, %s): the Coq L2 operator and the harness disagree on %d cases" % (name, n))
@@ -424,11 +571,10 @@ FINDING_TEXT = {
 
 
 def op_level(ck, coq_ok, known_counts):
-    opbin = ck.go_build("./cmd/c08op", "c08op")
-    if not opbin:
-        return {}
     n = 40 if ck.tier == "quick" else 400
-    rc, out = ck.run([opbin, str(n)], timeout=3000, env={"HOME": ck.work})
+    if "op" not in PRE:
+        return {}
+    rc, out = PRE["op"]
     ops = [json.loads(l)["opcase"] for l in out.splitlines() if l.startswith('{"opcase"')]
     if rc != 0 or not ops:
         ck.broken.append("harness c08op failed rc=%d cases=%d: %s" % (rc, len(ops), out[-800:]))
@@ -462,18 +608,25 @@ def op_level(ck, coq_ok, known_counts):
             for g, w in zip(st["groups"], c["want"]):
                 items.append(op_case_coq(st, c["cut"], g, w))
         files = []
-        for k in range(0, len(items), 400):
+        canary = None
+        for c in ops:
+            if c["stream"]["groups"] and c["want"]:
+                w = dict(c["want"][0])
+                w["rows"] = list(w["rows"]) + [{"t": 990, "c": [None] * len(c["stream"]["cols"])}]
+                canary = op_case_coq(c["stream"], c["cut"], c["stream"]["groups"][0], w)
+                break
+        if canary is None:
+            ck.broken.append("operator-level model evaluation: no fill case to build the canary from")
+        for k in range(0, len(items), 400) if canary else []:
+            part = items[k:k + 400] + [canary]
             txt = ("From Coq Require Import ZArith List Bool. From OG Require Import C08.Model C08.Corr.\n"
                    "Import ListNotations. Open Scope Z_scope.\n"
                    "Definition cases : list opcase := [\n%s\n].\n"
-                   "Definition M := Eval vm_compute in op_mismatches cases.\nPrint M.\n") % ";\n".join(items[k:k + 400])
-            files.append(("opcases_%d" % k, txt))
-        for rc2, o in ck.coq_eval_many(files):
-            m = re.search(r"M\s*=\s*(.*?)\s*:\s*list", o, re.S)
-            if rc2 != 0 or not m:
-                ck.broken.append("operator-level model evaluation failed: %s" % o[-600:])
-                continue
-            mism += len(re.findall(r"\d+", m.group(1)))
+                   "Definition M := Eval vm_compute in op_mismatches cases.\nPrint M.\n") % ";\n".join(part)
+            files.append(("opcases_%d" % k, txt, len(part)))
+        for r in eval_with_canary(ck, files, "operator level (fill)"):
+            if r is not None:
+                mism += len(r)
         ncoq = len(items)
         if mism:
             ck.broken.append("correspondence C08 (operator level): Coq fill_group_chunks and the Go specification twin disagree on %d group cases" % mism)
@@ -502,8 +655,13 @@ def main(ck):
         ck.coq_props(["C08/Props.v", "C08/Refuted.v"])
     server = ck.go_build_repo("./app/ts-server", "ts-server")
     binp = ck.go_build("./cmd/c08", "c08")
+    bins = {"op": ck.go_build("./cmd/c08op", "c08op"), "fault": ck.go_build("./cmd/c08f", "c08f"), "store": ck.go_build("./cmd/c08s", "c08s")}
     if not server or not binp:
         return
+    import threading
+    side = threading.Thread(target=side_harnesses, args=(ck, bins))
+    if not ck.replay:
+        side.start()
     tmpl = os.path.join(ck.repo, "config", "openGemini.singlenode.conf")
     corpus = sorted(glob.glob(os.path.join(ck.verif, "corpus", PID, "*.json")))
     if ck.replay:
@@ -513,6 +671,11 @@ def main(ck):
     else:
         nds, nq, files = 12, 80, corpus
     rc, out = ck.run([binp, server, tmpl, str(nds), str(nq)] + files, timeout=3000)
+    if not ck.replay:
+        side.join()
+        for k in ("op", "fault", "store"):
+            if k not in PRE:
+                ck.broken.append("in-process harness '%s' produced no output (%s)" % (k, PRE.get("error", "build failed")))
     datasets, cases = {}, []
     for l in out.splitlines():
         if l.startswith('{"dataset"'):
@@ -582,23 +745,21 @@ def main(ck):
                     c = cases[i]
                     items.append("(%s, %s)" % (query_coq(c["query"], False), answer_coq(c["ref_asc"])))
                     items.append("(%s, %s)" % (query_coq(c["query"], True), answer_coq(c["ref_desc"])))
+                # canary: the first query with one more (empty-keyed) group in the expected answer - must be reported
+                c0 = cases[part[0]]
+                items.append("(%s, %s)" % (query_coq(c0["query"], False),
+                                           answer_coq(list(c0["ref_asc"] or []) + [{"key": [987654], "rows": [{"t": 1, "c": [{"null": True}]}]}])))
                 txt = ("From Coq Require Import ZArith List Bool. From OG Require Import C08.Model C08.Corr.\n"
                        "Import ListNotations. Open Scope Z_scope.\n"
                        "Definition db : database := %s.\n"
                        "Definition cases : list (query * answer) := [\n%s\n].\n"
                        "Definition M := Eval vm_compute in mismatches db cases.\nPrint M.\n") % (
                     dataset_coq(datasets[name]), ";\n".join(items))
-                files.append(("cases_%s_%d" % (name, k), txt))
+                files.append(("cases_%s_%d" % (name, k), txt, len(items)))
                 index.append(part)
-        res = ck.coq_eval_many(files)
         mism = []
-        for part, (rc2, o) in zip(index, res):
-            m = re.search(r"M\s*=\s*(.*?)\s*:\s*list", o, re.S)
-            if rc2 != 0 or not m:
-                ck.broken.append("model evaluation failed: %s" % o[-600:])
-                continue
-            for a in re.findall(r"(\d+)%nat|(\d+)", m.group(1)):
-                j = int(a[0] or a[1])
+        for part, r in zip(index, eval_with_canary(ck, files, "L1 reference answers")):
+            for j in r or []:
                 mism.append((part[j // 2], "desc" if j % 2 else "asc"))
         if mism:
             i, o = mism[0]
@@ -610,10 +771,16 @@ def main(ck):
     else:
         validated = 0
 
+    ck.log("L1 answers recomputed by the model: %d" % (validated * 2))
     # ---- (C1) operator level: the real FillTransform on every cut of small streams
     op_cov = op_level(ck, ok, known_counts)
+    ck.log("operator level done")
     # ---- fault stage: error-or-correct under one injected storage read error
     ck.cov["fault_stage"] = fault_stage(ck)
+    ck.log("fault stage done")
+    # ---- store-side operator level: aggregate cursors on every piece cut
+    ck.cov["store_level"] = store_stage(ck, ok)
+    ck.log("store level done")
 
     # ---- coverage
     hist = {}
